@@ -114,6 +114,7 @@ func zzH_C06_maporder_pool() { zzC06MapOrder(0) }
 func zzH_C06_maporder_dist() { zzC06MapOrder(1) }
 
 func zzC06MapOrder(which int) {
+	zzC07NoDlg = !zzverif.Thorough() // quick tier: no delegation (it does not interact with map order)
 	zzverif.PermuteMaps(false)
 	w := zzC07Setup()
 	zzverif.Assume(w.s.GetValidatorByMainAddr(zzValAddr(1)).IsOnline())
